@@ -25,7 +25,7 @@ RULE = ('cases: seeded histories of 15-30 add/remove/lookup ops over a universe 
 ASSUMPTIONS = ['agents\' component sets are not modified while resident (C03\'s dimension)',
                'an out-of-bounds placement may raise any Exception subclass other than DuplicateAgentError (the documented error is a bare Exception)',
                'snapshots read documented public attributes']
-FLOORS = {'quick': {'falsy_agent_objects': 319, 'deprecated_alias_calls': 308, 'probe_dup_same': 3000, 'probe_dup_impostor': 3000, 'probe_remove_unknown': 3000, 'probe_strict_unknown': 3000,
+FLOORS = {'quick': {'agents_built_for_another_model': 251, 'listings_edited_by_the_caller': 1108, 'falsy_agent_objects': 319, 'deprecated_alias_calls': 308, 'probe_dup_same': 3000, 'probe_dup_impostor': 3000, 'probe_remove_unknown': 3000, 'probe_strict_unknown': 3000,
                     'probe_oob': 5000, 'probe_oob_taken_id': 500, 'middle_removals': 384, 'big_environments': 4, 'big_ops': 1000, 'edge_placements': 200,
                     'accessor_comparisons': 5000, 'rejected_agent_without_position': 5000, 'contract:Environment.registry': 50000, 'contract:SpaceWorld.containment': 50000,
                     'reach:Core.Environment.add_agent': 5000, 'reach:Environments.SpaceWorld.add_agent': 5000},
@@ -88,14 +88,19 @@ def case_history(ctx, case):
     # user agent classes: plain, and one whose truth value is its own business ('alive' flag: False) - still an agent like any other
     Mortal = type('Mortal', (core.Agent,), {'__bool__': lambda self: False})
     universe = []
+    other_model = core.Model()          # a second live model: some agents were built for it (an agent pool shared between models)
     for j in range(rng.randint(6, 10)):
         A = Mortal if rng.random() < 0.25 else core.Agent
         if A is Mortal:
             ctx.count('falsy_agent_objects')
-        a = A(rng.choice(ids), model, tag=reps.as_int(rng, rng.choice([None, 0, 1, 5])))
+        home = model
+        if rng.random() < 0.2:
+            home = other_model
+            ctx.count('agents_built_for_another_model')
+        a = A(rng.choice(ids), home, tag=reps.as_int(rng, rng.choice([None, 0, 1, 5])))
         for T in K:
             if rng.random() < 0.5:
-                a.add_component(T(a, model))
+                a.add_component(T(a, home))
         universe.append(a)
     ref = {}          # id -> agent, insertion ordered
     trace = []
@@ -141,7 +146,24 @@ def case_history(ctx, case):
         check(len(env) == len(exp), f'len(environment)={len(env)} but {len(exp)} agents live', trace=trace[-12:])
         check(same_objects(got_iter, exp), 'iteration order differs from joining order of live agents',
               expected=[a.id for a in exp], observed=[getattr(a, 'id', a) for a in got_iter], trace=trace[-12:])
-        check(same_objects(env.get_agents(), exp), 'get_agents() differs from the live agents in joining order', trace=trace[-12:])
+        listing = env.get_agents()
+        check(same_objects(listing, exp), 'get_agents() differs from the live agents in joining order', trace=trace[-12:])
+        if rng.random() < 0.3:
+            # what the caller does with a listing it was handed is its own business: the environment's views stay in agreement
+            junk = rng.choice(['reverse', 'clear', 'append', 'shuffle'])
+            if junk == 'reverse':
+                listing.reverse()
+            elif junk == 'clear':
+                listing.clear()
+            elif junk == 'append':
+                listing.append('not an agent')
+            else:
+                shuffled = env.shuffle()            # the library's own shuffle works on a listing as well
+                check(sorted(map(id, shuffled)) == sorted(map(id, exp)), 'shuffle() is not a permutation of the live agents', trace=trace[-12:])
+            ctx.count('listings_edited_by_the_caller')
+            check(same_objects(env.get_agents(), exp) and same_objects(list(env), exp) and len(env) == len(exp),
+                  f'after the caller edited a listing it had been handed ({junk}), get_agents() / iteration / len no longer agree with the live agents',
+                  listing=[getattr(a, 'id', a) for a in env.get_agents()], expected=[a.id for a in exp], trace=trace[-12:])
         for i in ids + ['nobody']:
             a = ref.get(i)
             check(env.get_agent(i) is a, f'get_agent({i!r}) returned the wrong object', trace=trace[-12:])
